@@ -194,6 +194,36 @@ def walkRun (j : Json) : Except String Json := do
     | k => throw s!"bad walk kind {k}"
   pure (Json.mkObj [("events", toJson (r.events.map eventToJson)), ("outcome", outcomeToJson r.outcome)])
 
+def groupsToJson (g : Walk.Groups) : Json :=
+  toJson (g.map fun kv => toJson (#[toJson kv.1, toJson (kv.2.map vbToJson)] : Array Json))
+
+def groupsOfJson (j : Json) : Except String Walk.Groups := do
+  let a ← j.getArr?
+  a.toList.mapM fun e => do
+    let p ← e.getArr?
+    pure (← oidOfJson (p[0]?.getD Json.null), ← vbsOfJson (p[1]?.getD Json.null))
+
+/-- unit level: `group_varbinds`, `get_unfinished_walk_oids`, `deduped_varbinds`, the per-column
+    check of the bulk fetcher — on arbitrary (also non-conformant) inputs -/
+def walkUnit (op : String) (j : Json) : Except String Json := do
+  let oids (k : String) : Except String (List Oid) := do
+    (← (← j.getObjVal? k).getArr?).toList.mapM oidOfJson
+  match op with
+  | "walk.group" =>
+    match Walk.groupVarbinds (← vbsOfJson (← j.getObjVal? "vbs")) (← oids "eff") (← oids "user") with
+    | .ok g => pure (groupsToJson g)
+    | .error e => pure (errToJson e)
+  | "walk.unfinished" =>
+    let u := Walk.unfinished (← groupsOfJson (← j.getObjVal? "groups"))
+    pure (toJson (u.map fun kl => toJson (#[toJson kl.1, vbToJson kl.2] : Array Json)))
+  | "walk.deduped" =>
+    let (ys, yielded) := Walk.deduped (← oids "roots") (← groupsOfJson (← j.getObjVal? "groups")) (← oids "yielded")
+    pure (Json.mkObj [("yields", toJson (ys.map vbToJson)), ("yielded", toJson yielded)])
+  | "walk.columns" =>
+    let cs ← oids "oids"
+    pure (toJson (Walk.checkColumns cs.length cs 0 (← vbsOfJson (← j.getObjVal? "vbs"))))
+  | _ => throw s!"bad-op {op}"
+
 def oidsOfJson (j : Json) : Except String (List Oid) := do
   let a ← j.getArr?
   a.toList.mapM oidOfJson
@@ -653,7 +683,10 @@ def handle (j : Json) : Except String Json := do
   | "udp.run" => udpRun j
   | "tablify" => tablifyOp j
   | "table.run" => tableRun j
-  | _ => if op.startsWith "ber." then berOp op j else throw s!"bad-op {op}"
+  | _ =>
+    if op.startsWith "ber." then berOp op j
+    else if op.startsWith "walk." then walkUnit op j
+    else throw s!"bad-op {op}"
 
 end Driver
 
